@@ -277,9 +277,12 @@ impl<F: Float, L: Label + std::fmt::Debug> TreeNode<F, L> {
                 }
 
                 // If the split would result in too few samples in a leaf
-                // then skip computing the quality
+                // then skip computing the quality. A side without any weight is never a valid
+                // split (its impurity is undefined), whatever the minimum leaf weight is
                 if weight_on_right_side < hyperparameters.min_weight_leaf()
                     || weight_on_left_side < hyperparameters.min_weight_leaf()
+                    || weight_on_right_side <= 0.0
+                    || weight_on_left_side <= 0.0
                 {
                     continue;
                 }
